@@ -2,7 +2,7 @@ SPECIFICATION MCSpec
 CONSTANTS
   Groups = {"g1"}
   Names = {"s1"}
-  Dev = {"MemRollbackStealsNostrId","MemOffsetOverflows"}
+  Dev = {}
   KnownFinding <- Silent
   Cap = 0
   MaxLimit = 10000
